@@ -31,6 +31,9 @@ EMPTY_STRUCT_RX = re.compile(r"ifdef\.members\.is_empty\(\)&&matches!\(mode,Pack
 EMPTY_STRUCT_OP = "sizeOneIfNoMembers"
 # the statements of the global loop of `check_layout` that peel the global's type before the `Object` test
 PEEL_OPS = {"remove_modifier": "removeModifier", "get_non_array_id": "nonArray"}
+# since fix bdddd35: the loop that removes a modifier after every array layer
+PEEL_WHILE = "whileletTypeLayer::Array(inner,_)=module.type_registry.get_type_layer(ty){ty=module.type_registry.remove_modifier(inner);}"
+PEEL_WHILE_OP = "whileArrayRemoveModifier"
 MODES = ["HlslStructuredBuffer", "Metal"]
 
 
@@ -217,7 +220,11 @@ def register(gen, T):
         rest = text
         first = True
         while rest:
-            m = re.match(r"letty=module\.type_registry\.([a-z_]+)\(([a-z_.]+)\);", rest)
+            if not first and rest.startswith(PEEL_WHILE):
+                ops.append(PEEL_WHILE_OP)
+                rest = rest[len(PEEL_WHILE):]
+                continue
+            m = re.match(r"let(?:mut)?ty=module\.type_registry\.([a-z_]+)\(([a-z_.]+)\);", rest)
             if not m or m.group(1) not in PEEL_OPS or m.group(2) != ("global.type_id" if first else "ty"):
                 raise ExtractError("check_layout: the statements that peel the global's type changed: " + rest[:80])
             ops.append(PEEL_OPS[m.group(1)])
@@ -373,8 +380,9 @@ def register(gen, T):
             raise ExtractError("get_type_location changed")
         out.append("/-- the global loop looks below a `Modifier` layer (`remove_modifier`) before it requires an `Object` layer -/\n"
                    f"def globalLoopStripsModifier : Bool := {'true' if 'removeModifier' in peel else 'false'}\n"
-                   "/-- it looks below `Array` layers (`get_non_array_id`; since fix d99f90e) -/\n"
-                   f"def globalLoopStripsArray : Bool := {'true' if 'nonArray' in peel else 'false'}\n"
+                   "/-- it looks below `Array` layers (`get_non_array_id` since fix d99f90e; a loop that also removes a\n"
+                   "    modifier after every array layer since fix bdddd35) -/\n"
+                   f"def globalLoopStripsArray : Bool := {'true' if ('nonArray' in peel or PEEL_WHILE_OP in peel) else 'false'}\n"
 
                    "/-- both loops skip a type id that was collected before (`types_seen`) -/\n"
                    "def dedupByTypeId : Bool := true\n"
@@ -592,7 +600,7 @@ def register(gen, T):
         peel = peel_ops(gm.group(1))
         skips_dependent = dependent_skip(dm.group(1), lc)
         out.append("/-- one statement of the global loop that peels the global's type before the `Object` test -/\n"
-                   "inductive PeelOp where\n" + "".join(f"  | {o}\n" for o in sorted(set(PEEL_OPS.values()))) +
+                   "inductive PeelOp where\n" + "".join(f"  | {o}\n" for o in sorted(set(PEEL_OPS.values()) | {PEEL_WHILE_OP})) +
                    "  deriving DecidableEq, Repr, Inhabited\n\n"
                    "/-- `let ty = module.type_registry.<f>(..);` at the head of the global loop, in order -/\n"
                    "def globalPeelOps : List PeelOp := " + T.lean_list("." + o for o in peel) + "\n\n"
